@@ -28,7 +28,10 @@ sys.modules.setdefault('replay', replay)
 import glob  # noqa: E402
 import importlib  # noqa: E402
 for _p in sorted(glob.glob(os.path.join(HERE, 'replay_*.py'))):
-    importlib.import_module(os.path.basename(_p)[:-3])
+    try:
+        importlib.import_module(os.path.basename(_p)[:-3])
+    except Exception as _e:
+        print('replay plug-in %s failed to import: %r' % (_p, _e), file=sys.stderr)
 import gens  # noqa: E402
 
 
